@@ -8,6 +8,8 @@ import (
 	"os"
 	"sort"
 	"strings"
+	"sync/atomic"
+	"time"
 
 	"verifharness/internal/model"
 	"verifharness/internal/prng"
@@ -29,7 +31,22 @@ type ctx struct {
 // emit evaluates one protocol line on the real code and queues it for the model.
 func (c *ctx) emit(line, class string, nontriv bool, tags ...string) {
 	g, rd := safeEval(c.s, line)
-	c.b.add(pending{line: line, readable: rd, goOut: g, class: class, nontriv: nontriv, tags: tags})
+	if strings.HasPrefix(g, "SKIPPED") {
+		return // the stream stopped evaluating after repeated hangs, which are reported themselves
+	}
+	c.b.add(pending{line: line, readable: rd, goOut: g, class: abnormalClass(class, g), nontriv: nontriv, tags: tags})
+}
+
+// abnormalClass gives panics and hangs of the code under test a class of their own, so that they are
+// kept among the reported disagreements whatever else the class holds.
+func abnormalClass(class, g string) string {
+	switch {
+	case strings.HasPrefix(g, "PANIC"):
+		return class + "|PANIC"
+	case strings.HasPrefix(g, "TIMEOUT"):
+		return class + "|TIMEOUT"
+	}
+	return class
 }
 
 // emitPre queues a case whose Go observable was computed by the caller (batched evaluation, e.g. when
@@ -41,19 +58,47 @@ func (c *ctx) emitPre(line, goOut, readable, class string, nontriv bool, tags ..
 // emitG is emit for callers that need the Go observable (e.g. to tag by outcome).
 func (c *ctx) emitG(line, class string, nontriv func(goOut string) bool, tags func(goOut string) []string) string {
 	g, rd := safeEval(c.s, line)
-	c.b.add(pending{line: line, readable: rd, goOut: g, class: class, nontriv: nontriv(g), tags: tags(g)})
+	if strings.HasPrefix(g, "SKIPPED") {
+		return g
+	}
+	c.b.add(pending{line: line, readable: rd, goOut: g, class: abnormalClass(class, g), nontriv: nontriv(g), tags: tags(g)})
 	return g
 }
 
 // safeEval is the stream's eval with a panic of the code under test turned into the observable
-// "PANIC <message>" (C09: no entry point may panic), so that the run goes on and the case is reported.
+// "PANIC <message>" and a call that does not return within the limit into "TIMEOUT" (C09: no entry point
+// may panic or hang), so that the run goes on and the case is reported. A timed-out call cannot be
+// stopped: its goroutine is abandoned, and after a few of them the stream stops evaluating new cases.
+var evalTimeouts atomic.Int32
+
+const evalLimit = 15 * time.Second
+
 func safeEval(s *stream, line string) (g, rd string) {
-	defer func() {
-		if r := recover(); r != nil {
-			g, rd = "PANIC "+strings.ReplaceAll(fmt.Sprint(r), "\n", " "), line
-		}
+	if evalTimeouts.Load() >= 3 {
+		return "SKIPPED after 3 timeouts", line
+	}
+	lim := evalLimit
+	if s.limit > 0 {
+		lim = s.limit
+	}
+	type res struct{ g, rd string }
+	ch := make(chan res, 1)
+	go func() {
+		defer func() {
+			if r := recover(); r != nil {
+				ch <- res{"PANIC " + strings.ReplaceAll(fmt.Sprint(r), "\n", " "), line}
+			}
+		}()
+		g, rd := s.eval(line)
+		ch <- res{g, rd}
 	}()
-	return s.eval(line)
+	select {
+	case r := <-ch:
+		return r.g, r.rd
+	case <-time.After(lim):
+		evalTimeouts.Add(1)
+		return "TIMEOUT the call did not return within " + lim.String(), line
+	}
 }
 
 // replay re-runs a single protocol line of a stream against the current tree and the model.
@@ -102,6 +147,8 @@ type stream struct {
 	// classByDirection appends the failed direction to the disagreement class (streams that serve
 	// several properties attribute a disagreement to a property by its direction)
 	classByDirection bool
+	// limit is the time one case may take before it counts as a hang (0 = evalLimit)
+	limit time.Duration
 }
 
 var streams = map[string]stream{}
